@@ -54,7 +54,91 @@ def pipeline(tier, replay_rows=None):
     for f in vlib.printed_tuples(out, "FAIL"):
         clause, line = f[0], int(f[1])
         fails.append((clause, rows[line - 1]))
+    # field-position projection: the decoded struct's named fields against the schema order of the specification
+    sch = vlib.printed(mc, "SCHEMA") if mc else []
+    if sch:
+        schema = {v["name"]: v["f"] for v in json.loads(sch[0]).values()}
+        for r in rows:
+            if r["ty"] in schema and r.get("dbg"):
+                bad = projection_mismatch(schema[r["ty"]], r["v"], r["dbg"])
+                if bad:
+                    r2 = dict(r)
+                    r2["projection"] = bad
+                    fails.append(("C05_FieldProjection", r2))
     return mc, cases, rows, fails
+
+
+def split_fields(dbg):
+    """'Name { a: X, b: Y }' -> {'a': 'X', 'b': 'Y'} (top level only)."""
+    i = dbg.find("{")
+    if i < 0:
+        return {}
+    body = dbg[i + 1:dbg.rfind("}")]
+    out, depth, cur, instr, esc = {}, 0, "", False, False
+    parts = []
+    for ch in body:
+        if instr:
+            cur += ch
+            if esc:
+                esc = False
+            elif ch == "\\":
+                esc = True
+            elif ch == '"':
+                instr = False
+            continue
+        if ch == '"':
+            instr = True
+        if ch in "([{":
+            depth += 1
+        if ch in ")]}":
+            depth -= 1
+        if ch == "," and depth == 0:
+            parts.append(cur)
+            cur = ""
+        else:
+            cur += ch
+    if cur.strip():
+        parts.append(cur)
+    for p in parts:
+        if ":" in p:
+            k, v = p.split(":", 1)
+            out[k.strip()] = v.strip()
+    return out
+
+
+def projection_mismatch(fields, v, dbg):
+    """Names of schema fields whose value in the decoded struct does not show the abstract value at that list position."""
+    import re as _re
+    got = split_fields(dbg)
+    items = v["x"]["x"] if v.get("t") == "described" and v["x"].get("t") == "list" else None
+    if items is None or not got:
+        return []
+    bad = []
+    for i, fd in enumerate(fields):
+        name = fd["n"].replace("-", "_")
+        if name not in got:
+            continue
+        text = got[name]
+        fv = items[i] if i < len(items) else {"t": "null"}
+        t = fv["t"]
+        if t == "null":
+            if not fd["hasdef"] and not fd["mult"] and text != "None":
+                bad.append(fd["n"])
+        elif t in ("uint", "ushort", "ubyte", "ulong", "timestamp"):
+            n = int.from_bytes(bytes(fv["x"]), "big")
+            if not _re.search(r"(?<![0-9])%d(?![0-9])" % n, text) and not (t == "ubyte" and fd["n"].endswith("settle-mode")) and fd["n"] not in ("code", "durable"):
+                bad.append(fd["n"])
+        elif t == "bool":
+            if ("true" if fv["b"] else "false") not in text.lower() and fd["n"] != "role":
+                bad.append(fd["n"])
+        elif t in ("string", "symbol"):
+            sx = bytes(fv["x"]).decode("utf8", "replace")
+            # restricted symbol types are rendered as enum variants, not as quoted text: only quoted renderings are compared
+            if '"' in text and sx not in text and fd["n"] not in ("condition", "expiry-policy", "distribution-mode", "mechanism"):
+                bad.append(fd["n"])
+        elif text == "None":
+            bad.append(fd["n"])
+    return bad
 
 
 def check(pid, tier, replay):
